@@ -73,7 +73,16 @@ def scenario(name):
                 # two files of the same size whose names differ in one bit ('1' = 0x31, '3' = 0x33)
                 files.update({'frames/f1.raw': bytes((i * 3) % 256 for i in range(300)), 'frames/f3.raw': bytes((i * 11 + 7) % 256 for i in range(300))})
                 write_tree(d + '/' + inp, files)
-            rc, out = pff([cmd, '-i', inp, '-d', db, '-g', '-f', '-l', 'gen.log'] + ECC[tool], d)
+            gextra = []
+            if variant == 'skipext':
+                # --skip_size_below with --always_include_ext: a compound extension, a name that is only an extension, two paths that
+                # differ by letter case only (one below the threshold), a '%' in a name: each protected file is repaired
+                files.update({'backup/bundle.tar.gz': bytes((i * 13) % 256 for i in range(40)), '.txt': b'just an extension\n',
+                              'docs/report.dat': b'tiny', 'docs/Report.dat': bytes((i * 3 + 1) % 256 for i in range(260)),
+                              '50%done.dat': bytes((i * 9 + 2) % 256 for i in range(230))})
+                write_tree(d + '/' + inp, files)
+                gextra = ['--skip_size_below', '100', '--always_include_ext', 'tar.gz|txt']
+            rc, out = pff([cmd, '-i', inp, '-d', db, '-g', '-f', '-l', 'gen.log'] + ECC[tool] + gextra, d)
             if rc != 0:
                 bad.append({'step': 'generate with -l', 'exit': rc, 'tail': out[-300:]})
             if 'efile' in variant:
@@ -86,6 +95,8 @@ def scenario(name):
             want_out = {}
             if name.startswith('C01'):
                 victims = ('a.bin', 'sub/b.txt') + (('old/archive.ecc', 'old/archive.ecc.idx') if variant == 'dbname' else ())
+                if variant == 'skipext':
+                    victims += ('backup/bundle.tar.gz', '.txt', 'docs/Report.dat', '50%done.dat')
                 for rel in victims:
                     b = bytearray(files[rel])
                     # one wrong byte every 29 bytes of the protected region (header tool: the first 200 bytes; whole tool: the whole
